@@ -45,6 +45,10 @@ const F72: &[(&str, &str)] = &[
     ("/rejt/@72", "/rejt/ac01"),
     ("/REJTX/@72", "/REJTX/AC01"),
     ("REJT-no-slashes@72", "REJT AC01"),
+    ("/BNF/RETN@72-no-closing-slash", "/BNF/RETN"),
+    ("/ACC/REJT@72-no-closing-slash", "/ACC/REJT"),
+    ("RETN/@72-no-leading-slash", "RETN/AC04 TEXT"),
+    ("//RETN@72", "//RETN"),
     ("/COV/@72", "/COV/COVER PAYMENT"),
     ("/COVER/@72", "/COVER/PAYMENT"),
 ];
@@ -363,7 +367,7 @@ pub fn run(cfg: &Config) -> i32 {
     });
     let mut rep = Report::default();
     rep.exhaustive = true;
-    rep.rule = "exhaustive product of 14 field-72 variants (code words at line start, second line, mid-line, look-alikes, lower case, cover words) x 6 {108:} variants x 5 {119:} variants over real messages of MT103/202/205 (with and without cover sequence) and of each of the other 27 types, each through the typed predicates and the real parse plugin. Non-trivial = the message parsed and was classified; distinct = distinct message texts".into();
+    rep.rule = "exhaustive product of 18 field-72 variants (code words at line start, second line, mid-line, look-alikes, lower case, cover words) x 6 {108:} variants x 5 {119:} variants over real messages of MT103/202/205 (with and without cover sequence) and of each of the other 27 types, each through the typed predicates and the real parse plugin. Non-trivial = the message parsed and was classified; distinct = distinct message texts".into();
     rep.assumptions = vec![
         "documented places: field 72 line start and the whole {108:} value; mid-line, substring and lower-case spellings are not judged against the word list (only for cross-type agreement and method implication)".into(),
     ];
